@@ -54,6 +54,11 @@ def configs(tier, seed):
             cfgs.append(dict(name=f"pol p={p} mults={pat} vals={base['vals']} dim={dim}", rat=False, dim=dim, **base))
             if 1 <= p <= 2 and (len(pat) <= 3 or tier == "thorough" or (k + seed) % 2 == 0):
                 cfgs.append(dict(name=f"rat p={p} mults={pat} vals={base['vals']}", rat=True, dim=0, **base))
+                if len(pat) <= 3:
+                    # all weights equal (to 5/2): the same function as the polynomial curve, described rationally
+                    cfgs.append(dict(name=f"rat, equal weights p={p} mults={pat} vals={base['vals']}", rat="equal", dim=0, **base))
+                    # vector-valued rational curve (a conic arc)
+                    cfgs.append(dict(name=f"rat 2-D p={p} mults={pat} vals={base['vals']}", rat=True, dim=2, **base))
     # knot vectors given as Python ints (the library then divides ints: float results, compared with tolerance)
     for k, (p, pat, ivals) in enumerate([(1, [2, 1, 2], [0, 2, 7]), (2, [3, 1, 1, 3], [0, 1, 4, 6]), (3, [4, 2, 4], [-3, 0, 4]),
                                           (2, [3, 2, 3], [1, 4, 5]), (2, [3, 3], [0, 3])]):
@@ -93,6 +98,8 @@ def body(env, cfg):
     dim = cfg["dim"]
     P = make_points(env, "P", kv.n, dim)
     W = conc_weights(kv.n, 3) if cfg["rat"] else None
+    if cfg["rat"] == "equal":
+        W = [F(5, 2)] * kv.n
     U = [int(x) for x in kv.U] if cfg.get("intknots") else list(kv.U)
     C = Curve(U, P, W)
     snap = kmode.snapshot(C)
